@@ -1,36 +1,24 @@
-"""Vacuity pass (thorough tier): append `ensures false` to every woven
-contract; every function under contract must then be REJECTED by Verus.  A
-function that still verifies has a contradictory precondition (or Verus did not
-look at it)."""
-import re
+"""Vacuity pass (thorough tier): `proof { assert(false); }` is woven at the
+entry of every verified-body function under contract; Verus must REJECT each
+of them.  A function whose probe verifies has a contradictory precondition
+(or Verus did not look at it)."""
 from . import verus
 
 
 def run(units, rlimit):
     out = []
     for u in units:
-        def mutate(txt):
-            # add `false` as an extra ensures clause to each woven contract
-            lines = txt.split("\n")
-            res = []
-            for ln in lines:
-                res.append(ln)
-            return "\n".join(res)
-        res, ex = verus.run_unit(u, rlimit=rlimit, variant="vacuity", mutate=_add_false)
-        if res.status == "undecided":
+        res, ex = verus.run_unit(u, rlimit=rlimit, variant="vacuity")
+        if res.status == "undecided" and not res.failures:
             out.append({"unit": u, "status": "undecided", "reason": res.reason})
             continue
         failed_items = set()
         for f in res.failures:
             parts = f["obligation"].split(".")
             failed_items.add(".".join(parts[1:-1]))
-        expect = [it.id for it in res.items if it.is_fn and it.mode == "full" and not it.imported and it.labels]
+        expect = [it.id for it in res.items if getattr(it, "vacuity_probe", False)]
         vac = [i for i in expect if i not in failed_items]
-        out.append({"unit": u, "status": "ok" if not vac else "vacuous", "reason": "functions that verify `ensures false`: %s" % vac if vac else "",
+        out.append({"unit": u, "status": "ok" if not vac else "vacuous",
+                    "reason": ("functions whose entry is unreachable under their `requires`: %s" % vac) if vac else "",
                     "functions_checked": len(expect)})
     return out
-
-
-def _add_false(txt):
-    # the weaver emits `ensures` on its own line inside woven contracts
-    return re.sub(r"(?m)^(\s*)ensures\s*$", r"\1ensures false,", txt)
